@@ -17,6 +17,7 @@ import (
 	"strconv"
 
 	"github.com/openGemini/openGemini/engine/immutable/colstore"
+	"github.com/openGemini/openGemini/lib/binaryfilterfunc"
 	"github.com/openGemini/openGemini/engine/index/sparseindex"
 	"github.com/openGemini/openGemini/lib/fragment"
 	"github.com/openGemini/openGemini/lib/record"
@@ -95,6 +96,7 @@ type CaseOut struct {
 	Rects  []Rect  `json:"rects"`  // min/max rectangles per fragment (CheckInRange stream)
 	Marks  [][2]int `json:"marks"` // per rect: canBeTrue, canBeFalse (or -1,-1 on error / -2 panic)
 	Match  []bool  `json:"match"`  // per fragment: contains a row satisfying the condition (brute force)
+	MatchEq []bool `json:"matcheq"` // the same with MATCHPHRASE / IPINRANGE atoms read as equality (string-operator stream)
 	Mutated bool   `json:"mutated"` // the index record differs from a fresh Build after Scan
 	Oracle []string `json:"oracle"` // direct-oracle failures
 	Nontriv bool   `json:"nontrivial"`
@@ -334,7 +336,10 @@ func varType(ty string) influxql.DataType {
 }
 
 var opTok = map[string]influxql.Token{"=": influxql.EQ, "!=": influxql.NEQ, "<": influxql.LT, "<=": influxql.LTE,
-	">": influxql.GT, ">=": influxql.GTE, "in": influxql.IN, "like": influxql.LIKE, "match": influxql.MATCHPHRASE}
+	">": influxql.GT, ">=": influxql.GTE, "in": influxql.IN, "like": influxql.LIKE, "match": influxql.MATCHPHRASE,
+	"ipinrange": influxql.IPINRANGE, "matchop": influxql.MATCH}
+
+func isStrOp(op string) bool { return op == "like" || op == "match" || op == "ipinrange" || op == "matchop" }
 var flipOp = map[string]string{"=": "=", "!=": "!=", "<": ">", "<=": ">=", ">": "<", ">=": "<="}
 
 func (w *world) colType(col int) string {
@@ -380,7 +385,7 @@ func (w *world) expr(c *Cond) influxql.Expr {
 		ty := w.colType(c.Col)
 		vr := &influxql.VarRef{Val: colName(c.Col), Type: varType(ty)}
 		lit := litExpr(ty, c.Lit)
-		if c.Flip {
+		if c.Flip && !isStrOp(c.Op) {
 			e = &influxql.BinaryExpr{Op: opTok[flipOp[c.Op]], LHS: lit, RHS: vr}
 		} else {
 			e = &influxql.BinaryExpr{Op: opTok[c.Op], LHS: vr, RHS: lit}
@@ -394,12 +399,15 @@ func (w *world) expr(c *Cond) influxql.Expr {
 
 // brute-force evaluation of the condition on a row. A null never satisfies a comparison (the engine's row filter
 // drops nulls for every operator, including !=); the non-key column and LIKE/IN on it are evaluated on the value.
-func (w *world) eval(c *Cond, row []tval) bool {
+func (w *world) eval(c *Cond, row []tval) bool { return w.evalMode(c, row, false) }
+
+// evalMode: asEq evaluates MATCHPHRASE / IPINRANGE atoms as equality (the primary-key index's reading of them).
+func (w *world) evalMode(c *Cond, row []tval, asEq bool) bool {
 	switch c.Op {
 	case "and":
-		return w.eval(c.Args[0], row) && w.eval(c.Args[1], row)
+		return w.evalMode(c.Args[0], row, asEq) && w.evalMode(c.Args[1], row, asEq)
 	case "or":
-		return w.eval(c.Args[0], row) || w.eval(c.Args[1], row)
+		return w.evalMode(c.Args[0], row, asEq) || w.evalMode(c.Args[1], row, asEq)
 	}
 	col := c.Col
 	if col < 0 {
@@ -417,6 +425,20 @@ func (w *world) eval(c *Cond, row []tval) bool {
 			}
 		}
 		return false
+	}
+	switch c.Op {
+	case "match": // the engine's row predicate: token-bounded containment (lib/tokenizer SimpleTokenFinder)
+		if asEq {
+			return x.s == c.Lit
+		}
+		return phraseMatches(x.s, c.Lit)
+	case "ipinrange": // the engine's row predicate
+		if asEq {
+			return x.s == c.Lit
+		}
+		return binaryfilterfunc.IsIpInRange(x.s, c.Lit)
+	case "like", "matchop": // lib/binaryfilterfunc has no entry for these operators: operationMap yields 0 = GT
+		return x.s > c.Lit
 	}
 	k := cmpVal(ty, x, parseVal(ty, &c.Lit))
 	switch c.Op {
@@ -564,6 +586,13 @@ func runCase(id int, in *CaseIn) *CaseOut {
 			}
 		}
 		out.Match = append(out.Match, m)
+		me := false
+		for r := b[0]; r < b[1]; r++ {
+			if w.evalMode(in.Cond, w.rows[r], true) {
+				me = true
+			}
+		}
+		out.MatchEq = append(out.MatchEq, me)
 	}
 	out.MinMarks = 0
 	if in.RPF > 0 {
@@ -916,7 +945,14 @@ var intEdge = []int64{math.MaxInt64, math.MinInt64, math.MaxInt64 - 1, math.MinI
 var floatDom = []float64{-2.5, -1, 0, 0.5, 1, 1.5, 2, 3.25, 1e300, -1e300, math.Inf(1), math.Inf(-1), 5e-324}
 var strDom = []string{"", "A", "B", "C", "D", "E", "Da", "a", "ab", "b", "\x00", "\xff"}
 
+var textMode bool
+var textDom = []string{"hello", "hello world", "world", "GET /a", "a b c", "10.0.0.5", "10.0.1.7", "192.168.1.1", "", "zeta", "hello,world", "world hello"}
+var textLits = []string{"hello", "world", "a", "GET", "b c", "zeta", "10.0.0.0/24", "10.0.0.0/8", "192.168.1.1/32", "hello world", "10.0.0.5"}
+
 func genVal(r *gen.Rand, ty string, small int) tval {
+	if textMode && ty == "string" {
+		return tval{s: textDom[r.Intn(len(textDom))]}
+	}
 	switch ty {
 	case "int":
 		if r.Chance(1, 25) {
@@ -942,6 +978,9 @@ func genCase(r *gen.Rand) *CaseIn {
 	tys := []string{"int", "float", "string", "bool"}
 	for c := 0; c < nk; c++ {
 		in.Types = append(in.Types, gen.Pick(r, tys))
+	}
+	if textMode {
+		in.Types[r.Intn(nk)] = "string"
 	}
 	n := 1 + r.Intn(36)
 	if r.Chance(1, 10) {
@@ -1060,6 +1099,14 @@ func genCase(r *gen.Rand) *CaseIn {
 		if r.Chance(1, 8) {
 			col = -1
 		}
+		if textMode && col >= 0 && in.Types[col] == "string" && r.Chance(3, 5) {
+			op := gen.Pick(r, []string{"match", "match", "ipinrange", "like", "matchop"})
+			lit := gen.Pick(r, textLits)
+			if op == "ipinrange" {
+				lit = gen.Pick(r, []string{"10.0.0.0/24", "10.0.0.0/8", "192.168.1.1/32", "10.0.1.0/24"})
+			}
+			return &Cond{Op: op, Col: col, Lit: lit, Paren: r.Chance(1, 8)}
+		}
 		return &Cond{Op: gen.Pick(r, ops), Col: col, Lit: pickLit(col), Flip: r.Chance(1, 6), Paren: r.Chance(1, 8)}
 	}
 	in.Cond = genCond(r.Intn(4))
@@ -1159,8 +1206,22 @@ func main() {
 	}
 	r := gen.FromEnv(20)
 	for i := 0; i < n; i++ {
+		textMode = i%8 == 7
 		in := genCase(r)
-		if i%25 == 24 {
+		if textMode {
+			hasStr := false
+			for _, ty := range in.Types {
+				hasStr = hasStr || ty == "string"
+			}
+			if !hasStr {
+				textMode = false
+				in = genCase(r)
+			} else {
+				in.Tag = "strop"
+			}
+		}
+		textMode = false
+		if i%25 == 24 && in.Tag == "" {
 			in = genSpecial(r, in)
 		}
 		gen.Emit(runCase(i, in))
